@@ -1,0 +1,27 @@
+//go:build verif
+
+/*
+ * Licensed to the Apache Software Foundation (ASF) under one or more
+ * contributor license agreements.  See the NOTICE file distributed with
+ * this work for additional information regarding copyright ownership.
+ * The ASF licenses this file to You under the Apache License, Version 2.0
+ * (the "License"); you may not use this file except in compliance with
+ * the License.  You may obtain a copy of the License at
+ *
+ *     http://www.apache.org/licenses/LICENSE-2.0
+ *
+ * Unless required by applicable law or agreed to in writing, software
+ * distributed under the License is distributed on an "AS IS" BASIS,
+ * WITHOUT WARRANTIES OR CONDITIONS OF ANY KIND, either express or implied.
+ * See the License for the specific language governing permissions and
+ * limitations under the License.
+ */
+
+package sql
+
+import "time"
+
+// VerifSetXABranchExecutionTimeout sets the branch execution timeout of the XA connections. The
+// configuration key xa_branch_execution_timeout cannot be loaded from a file (it lives in an unexported
+// field of XAConfig), so without this the one minute default is the only value a harness can have.
+func VerifSetXABranchExecutionTimeout(d time.Duration) { xaConnTimeout = d }
